@@ -239,6 +239,23 @@ match: normalized("@P1")
 category: CN2
 '''
 
+T_CHAIN = '''
+mid = 9001 < amount <= 9002
+
+[Low]
+match: 0 < amount <= 9001
+category: CLow
+
+[Mid]
+match: mid
+category: CMid
+subcategory: SMid
+
+[High]
+match: 9002 < amount
+category: CHigh
+'''
+
 T_FAIL = '''
 v = field.nope
 
@@ -262,7 +279,7 @@ subcategory: SE4
 '''
 
 TEMPLATES = {'vars1': T_VARS1, 'vars2': T_VARS2, 'letshadow': T_LETSHADOW, 'letshadow2': T_LETSHADOW2, 'dates1': T_DATES1, 'dates2': T_DATES2,
-             'fields1': T_FIELDS1, 'fields2': T_FIELDS2, 'funcs1': T_FUNCS1, 'funcs2': T_FUNCS2, 'fail': T_FAIL}
+             'fields1': T_FIELDS1, 'fields2': T_FIELDS2, 'funcs1': T_FUNCS1, 'funcs2': T_FUNCS2, 'fail': T_FAIL, 'chain': T_CHAIN}
 
 
 # ------------------------------------------------------------------------------------------- generated templates
